@@ -146,7 +146,7 @@ def kf(kind, args, op):
         return False
     iop = a[0]
     try:
-        if kind == "qzero":          # rational with zero denominator under a non-zero numerator
+        if kind == "qzero":          # rational with zero denominator
             if iop not in ("de.q", "de.x"):
                 return False
             b = bytes.fromhex(a[2][2:])
@@ -156,13 +156,13 @@ def kf(kind, args, op):
                     return False
                 n, i = r
                 r = _pc_int(b, i, False)
-                return r is not None and r[0] == 0 and n != 0
+                return r is not None and r[0] == 0
             t = _json_text(b)
             if t is None or "/" not in t:
                 return False
             num, den = t.split("/", 1)
             zero = lambda x: re.fullmatch(r"[+-]?(0x|0b|0o)?[0_]*0[0_]*", x) is not None
-            return zero(den) and not zero(num)
+            return zero(den) and re.fullmatch(r"[+-]?(0x|0b|0o)?[0-9a-fA-F_]+", num) is not None
         if kind == "finf":           # the stored form of an infinity (0, +-1) read back as zero
             if iop in ("sd.rinf", "sd.finf"):
                 return a[1] == "pc"
